@@ -11,6 +11,7 @@ def install_all(reg):
     space_utils.install(reg)
     deps.install(reg)
     petri_net.install(reg)
+    petri_net.install_names(reg)
     trappist.install(reg)
     trappist.install_models(reg)
     trappist.install_programs(reg)
